@@ -80,7 +80,7 @@ class C16(Prop):
             cfg["acyclic_libs"] = True
             cfg["shuffle_order"] = r.random() < 0.6
             cfg["ident_rate"] = r.choice([0.0, 0.3])
-            cfg["name_style"] = r.choice(["unique", "unique", "pool"])
+            cfg["name_style"] = r.choice(["unique", "scoped", "pool"])
             cfg["name_pool"] = ["a", "A", "ab", "a_b", "n1", "x y", "a[0]", "1a", "a-b"]
         else:
             cfg["source"] = "example"
